@@ -9,8 +9,9 @@ import BumpProof.Lemmas.Hist2Run
 import BumpProof.Lemmas.Hist2Ex
 import BumpProof.Lemmas.Hist2Claim
 import BumpProof.Lemmas.Hist2Prep
-import BumpProof.Lemmas.Hist2Adv
+import BumpProof.Lemmas.Hist2AdvTry
 import BumpProof.Lemmas.Hist2Low
+import BumpProof.Lemmas.Hist2SfRun
 
 set_option linter.unusedSimpArgs false
 set_option linter.unusedVariables false
@@ -109,47 +110,6 @@ theorem failed_step_keeps_everything (hc : CfgOK cfg) (h : Reachable cfg g) {op 
   · intro hne
     rw [h3]
     exact (hquiet hne).1
-
-/-- how many base-allocator calls an operation can make (`alloc_try_with` whose closure allocates: two) -/
-def maxRequests : Op → Nat
-  | .allocTryWith _ _ _ _ (some _) _ => 2
-  | _ => 1
-
-theorem baseOK_of_fail {s : State} {L : Layout} {rest : List BaseResp} (h : s.resps = .fail :: rest) :
-    BaseOK cfg s L := fun size _ => ⟨.fail, rest, h, trivial⟩
-
-/-- a refusing base allocator "answers" every request (`Answered` only asks that a response is pending and,
-    if it is a grant, large enough) -/
-theorem answered_of_allFail (g : GState) (op : Op) {resps : List BaseResp} (hall : AllFail resps)
-    (hlen : maxRequests op ≤ resps.length) : Answered cfg (install g resps).s op := by
-  obtain ⟨r0, rest, rfl⟩ : ∃ r0 rest, resps = r0 :: rest := by
-    cases resps with
-    | nil => unfold maxRequests at hlen; split at hlen <;> simp at hlen
-    | cons a l => exact ⟨a, l, rfl⟩
-  have hr0 : r0 = .fail := hall r0 List.mem_cons_self
-  subst hr0
-  have hb : ∀ L, BaseOK cfg (install g (.fail :: rest)).s L := fun L => baseOK_of_fail rfl
-  cases op with
-  | newWithSize n => exact fun size _ => ⟨.fail, rest, rfl, trivial⟩
-  | reserve n dyn =>
-    cases dyn
-    · exact fun _ _ => hb _
-    · exact hb _
-  | allocTryWith L off vsize ok inner m =>
-    refine ⟨hb L, fun Li hLi s1 r hal => ?_⟩
-    subst hLi
-    obtain ⟨r1, rest1, rfl⟩ : ∃ r1 rest1, rest = r1 :: rest1 := by
-      cases rest with
-      | nil => simp [maxRequests] at hlen
-      | cons a l => exact ⟨a, l, rfl⟩
-    have hr1 : r1 = .fail := hall r1 (List.mem_cons_of_mem _ List.mem_cons_self)
-    subst hr1
-    rcases (allocGeneric_frame hal).2.2.1 with h | ⟨x, h⟩
-    · exact baseOK_of_fail (rest := .fail :: rest1) h
-    · have h' : (BaseResp.fail :: BaseResp.fail :: rest1) = x :: s1.resps := h
-      simp only [List.cons.injEq] at h'
-      exact baseOK_of_fail h'.2.symm
-  | _ => first | exact hb _ | trivial
 
 /-- NO PANIC ON FAILURE: from any reachable state, when the base allocator REFUSES every request of the step
     (`AllFail`; `maxRequests` responses are pending), a covered operation never ends in an overflow, a failed
@@ -256,12 +216,6 @@ theorem scope_restores (hc : CfgOK cfg) {g g1 g2 g3 : GState} (h : Reachable cfg
     rw [bytes_step hi2 (envOK_nil g2) h3 b hb2 hb3 (fun seed hh => by cases hh) k hkk, hby2 k hkk, e1]
     rfl
 
-theorem keptThrough_head {b : Block} {g : GState} {w : List (Op × List BaseResp)}
-    (h : C02.KeptThrough cfg b g w) : b ∈ g.s.live := by
-  cases w with
-  | nil => exact h
-  | cons x rest => exact h.1
-
 /-- `scoped_aligned::<N>` ROUND TRIP, over all histories: as `scope_restores`, for a region that also changes the
     minimum alignment to `n` (raising or lowering it).  The checkpoint is taken by the outer handle before the
     position is aligned for `n`, and the exit resets with the OUTER minimum alignment: the bump position after the
@@ -363,6 +317,25 @@ theorem checkpoint_resetTo_restores (hc : CfgOK cfg) {g g1 g2 g3 : GState} (h : 
     rw [bytes_step hi2 (envOK_nil g2) h3 b hb2 hb3 (fun seed hh => by cases hh) k hkk, hby2 k hkk,
       bytes_step hi (envOK_nil g) h1 b hb (keptThrough_head hk) (fun seed hh => by cases hh) k hkk]
 
+/-- `alloc_try_with(_mut)` whose closure returns `Err` (without allocating itself), in every history: from any
+    reachable state, whatever path the allocation of the `Result` took (current chunk, a later chunk, a new chunk
+    from the base allocator), the arena is rewound to the checkpoint taken before it: allocated byte count,
+    current chunk and bump position are exactly those before the call, the live blocks are the same, every chunk
+    is still in place (a chunk acquired for the `Result` remains available), regions, marks and minimum
+    alignment are unchanged. -/
+theorem tryWith_err_restores (hc : CfgOK cfg) {g g' : GState} (h : Reachable cfg g) {L : Layout} {off vsize : Nat}
+    {mut_ : Bool} {resps : List BaseResp} {reqs : List BaseReq}
+    (hcov : (Op.allocTryWith L off vsize false none mut_).Covered) (henv : EnvOK cfg g resps)
+    (hs : step cfg g (.allocTryWith L off vsize false none mut_) resps = .ok (g', .none_, reqs)) :
+    (stats cfg g'.s).allocated = (stats cfg g.s).allocated ∧
+    (∀ i, g.s.cur = .chunk i → g'.s.cur = .chunk i ∧ curPos cfg g'.s = curPos cfg g.s) ∧
+    ChunksCov g.s g'.s ∧ g'.s.live = g.s.live ∧ g'.s.nextId = g.s.nextId ∧
+    (g'.s.frames = g.s.frames ∧ g'.marks = g.marks ∧ g'.s.minAlign = g.s.minAlign) := by
+  have hsz : L.align ∣ L.size := by
+    have : L.size % L.align = 0 := by simpa [Op.Covered, Op.covered] using hcov
+    exact Nat.dvd_of_mod_eq_zero this
+  exact Arena.Hist.tryWith_err_restores (g := install g resps) ((h.inv hc).install resps) henv.1 henv.2 hsz (step_ok hs).1
+
 set_option maxRecDepth 1000000 in
 /-- non-vacuity: from the reachable `exG3` (one 496-byte chunk, two live blocks) enter a scope, allocate 600 bytes
     (a second chunk is acquired), open and close an inner scope with another allocation, leave the scope -/
@@ -391,6 +364,14 @@ example : ∃ g1 g2 g3 o1 o3 q1 q3, step exCfg exG3 (.checkpoint 7) [] = .ok (g1
     step exCfg g2 (.resetTo 7) [] = .ok (g3, o3, q3) :=
   ⟨_, _, _, _, _, _, _, rfl, exInner_covered, runEnvCheck_sound _ _ (by rfl), rfl, noBare_of_check (by rfl),
     aboveCheck_sound _ _ (by rfl), rfl, rfl, rfl⟩
+
+/-- `alloc_try_with` of a 32-byte `Result` that does not fit the first chunk any more: a second chunk is acquired,
+    the closure returns `Err` -/
+example : ∃ g' reqs, (Op.allocTryWith { size := 512, align := 8 } 8 500 false none false).Covered ∧
+    EnvOK exCfg exG3 [.granted 0x20000 1008] ∧
+    step exCfg exG3 (.allocTryWith { size := 512, align := 8 } 8 500 false none false) [.granted 0x20000 1008] =
+      .ok (g', .none_, reqs) :=
+  ⟨_, _, by decide, envCheck_sound (by rfl), rfl⟩
 
 end C03
 
@@ -489,17 +470,21 @@ theorem claim_resumes (hc : CfgOK cfg) {g g1 g2 g3 : GState} (h : Reachable cfg 
     have : readByte g1.s (b.addr + k) = readByte g.s (b.addr + k) := by rw [e1]; rfl
     rw [← this, ← hby2 k hkk]; rfl
 
-/-- TARGET (not proved): the claim is TRANSPARENT — for a history `w` without operations on the claimed handle,
-    running `claim :: w ++ [claimEnd]` and running `w` alone from the same reachable state end in the same state.
-    `claim_resumes` shows that the guard's work is handed back unchanged; missing for this stronger statement is that
-    every model function is independent of the `frames` field below the top region (a "frame-suffix irrelevance"
-    lemma for each of the ~25 model functions and then for each constructor of `stepCore`). -/
-def claim_is_transparent_target : Prop :=
-  ∀ (cfg : Cfg) (g g3 : GState) (w : List (Op × List BaseResp)), CfgOK cfg → Reachable cfg g → AllCovered w →
-    (∀ x ∈ w, ∀ op, x.1 ≠ .onClaimed op) →
-    runOps cfg g ((.claim, []) :: w ++ [(.claimEnd, [])]) = .ok g3 →
-    (∀ g1 o q, step cfg g .claim [] = .ok (g1, o, q) → Above cfg g1.s.frames g1 w) →
-    runOps cfg g w = .ok g3
+/-- THE CLAIM IS TRANSPARENT (for every state `g`, reachable or not, and every configuration): take a claim guard,
+    run ANY finite history `w` through the guard that contains no operation addressed to the claimed original
+    handle, never ends the claim (`Above`) and is back at the level of the claim at its end, drop the guard.  Then
+    running `w` ALONE from `g` (no claim at all) succeeds as well, produces exactly the same outputs, requests
+    and responses step by step (`log`), and ends in the same state (`g3 = install g2 []`: equal up to the list of
+    requests of the very last step, which is empty after `claimEnd`).  The original handle therefore continues
+    exactly where the guard stopped, as if the work had been done through the original handle itself.
+    (Proof: no function of the model reads the region stack below its top — `Lemmas/Hist2Sf*.lean`.) -/
+theorem claim_is_transparent {g g1 g2c g3 : GState} {w : List (Op × List BaseResp)} {o1 o3 : Out}
+    {q1 q3 : List BaseReq} {log : List LogEntry} (hw : ∀ x ∈ w, ∀ op', x.1 ≠ .onClaimed op')
+    (h1 : step cfg g .claim [] = .ok (g1, o1, q1))
+    (hrun : runLog cfg g1 w = .ok (g2c, log)) (habove : Above cfg g1.s.frames g1 w) (hbal : g2c.s.frames = g1.s.frames)
+    (h3 : step cfg g2c .claimEnd [] = .ok (g3, o3, q3)) :
+    ∃ g2, runLog cfg g w = .ok (g2, log) ∧ g3 = install g2 [] :=
+  claim_transparent hw h1 hrun habove hbal h3
 
 /-- non-vacuity: `exG3`, then `claim`: a reachable state with an open claim; `allocate` on the original handle -/
 def exClaimOps : List (Op × List BaseResp) := exOps3 ++ [(.claim, [])]
@@ -517,6 +502,17 @@ example : ∃ g1 g2 g3 o1 o3 q1 q3, step exCfg exG3 .claim [] = .ok (g1, o1, q1)
     step exCfg g2 .claimEnd [] = .ok (g3, o3, q3) :=
   ⟨_, _, _, _, _, _, _, rfl, exInner_covered, runEnvCheck_sound _ _ (by rfl), rfl,
     aboveCheck_sound _ _ (by rfl), rfl, rfl⟩
+
+set_option maxRecDepth 1000000 in
+/-- hypotheses of `claim_is_transparent` for the example history (it contains no `onClaimed`) -/
+example : ∃ g1 g2c g3 o1 o3 q1 q3 log, (∀ x ∈ exInner, ∀ op', x.1 ≠ .onClaimed op') ∧
+    step exCfg exG3 .claim [] = .ok (g1, o1, q1) ∧ runLog exCfg g1 exInner = .ok (g2c, log) ∧
+    Above exCfg g1.s.frames g1 exInner ∧ g2c.s.frames = g1.s.frames ∧
+    step exCfg g2c .claimEnd [] = .ok (g3, o3, q3) :=
+  ⟨_, _, _, _, _, _, _, _,
+    (by intro x hx op' h; simp only [exInner, List.mem_cons, List.not_mem_nil, or_false] at hx
+        rcases hx with rfl | rfl | rfl | rfl <;> cases h),
+    rfl, rfl, aboveCheck_sound _ _ (by rfl), rfl, rfl⟩
 
 end C14
 
@@ -626,6 +622,15 @@ example : ∃ g1 g2 g3 o1 o3 q1 q3, step exCfg exG3 (.alignedEnter 1) [] = .ok (
   ⟨_, _, _, _, _, _, _, rfl, exInner_covered, runEnvCheck_sound _ _ (by rfl), rfl,
     aboveCheck_sound _ _ (by rfl), rfl, rfl⟩
 
+set_option maxRecDepth 1000000 in
+/-- hypotheses of `scopedAligned_positions` (lowering to 1 this time) -/
+example : ∃ g1 g2 g3 o1 o3 q1 q3, step exCfg exG3 (.scopedAlignedEnter 1) [] = .ok (g1, o1, q1) ∧
+    AllCovered exInner ∧ RunEnvOK exCfg g1 exInner ∧ runOps exCfg g1 exInner = .ok g2 ∧
+    Above exCfg g1.s.frames g1 exInner ∧ g2.s.frames = g1.s.frames ∧
+    step exCfg g2 .scopedAlignedExit [] = .ok (g3, o3, q3) :=
+  ⟨_, _, _, _, _, _, _, rfl, exInner_covered, runEnvCheck_sound _ _ (by rfl), rfl,
+    aboveCheck_sound _ _ (by rfl), rfl, rfl⟩
+
 end C18
 
 /-! # C15 — exclusive-borrow collections use free space without moving the pointer -/
@@ -689,40 +694,27 @@ variable {cfg : Cfg}
     `deallocate` / `shrink` (not through the opt-out wrappers), `shrink_slice`, `scopeExit`, `scopedAlignedExit`,
     `reset_to`, `reset`, `reset_to_start` — never makes `stats().allocated()` smaller.  In particular `allocate`,
     the typed allocations, `grow` (it never gives anything back), `reserve`, `prepare*`, `fillPrepared`,
-    `commit*`, `abandonPrepared`, `write`, `split`, `checkpoint`, `scopeEnter`, `claim` / `claimEnd`, everything on
-    the claimed handle, `aligned*` entry AND exit, `with_settings`, the constructors, `WithoutDealloc::deallocate`
-    and `WithoutShrink::shrink`.  (`alloc_try_with` is not covered here: see the target below.) -/
+    `commit*`, `abandonPrepared`, `alloc_try_with(_mut)` (`Ok`: the position ends past the value; `Err`: the
+    checkpoint taken before is restored or nothing is undone), `write`, `split`, `checkpoint`, `scopeEnter`,
+    `claim` / `claimEnd`, everything on the claimed handle, `aligned*` entry AND exit, `with_settings`, the
+    constructors, `WithoutDealloc::deallocate` and `WithoutShrink::shrink`. -/
 theorem never_decreases (hc : CfgOK cfg) {g g' : GState} (h : Reachable cfg g) {op : Op} {resps : List BaseResp}
     {out : Out} {reqs : List BaseReq} (hcov : op.Covered) (henv : EnvOK cfg g resps)
-    (hnr : op.mayReclaim = false) (hnt : op.isTryWith = false)
-    (hs : step cfg g op resps = .ok (g', out, reqs)) :
+    (hnr : op.mayReclaim = false) (hs : step cfg g op resps = .ok (g', out, reqs)) :
     (stats cfg g.s).allocated ≤ (stats cfg g'.s).allocated :=
-  stepCore_adv (g := install g resps) hcov ((h.inv hc).install resps) henv.1 hnr hnt (step_ok hs).1
+  stepCore_adv_full (g := install g resps) hcov ((h.inv hc).install resps) henv.1 henv.2 hnr (step_ok hs).1
 
-/-- … put the other way round: if a step makes the allocated byte count strictly smaller, the operation is one of
-    the reclaiming ones (partial: or `alloc_try_with`) -/
-theorem allocated_decreases_only_by_partial (hc : CfgOK cfg) {g g' : GState} (h : Reachable cfg g) {op : Op}
+/-- THE LIST IS EXACT in the sense of C13: if a step of any history makes the allocated byte count strictly smaller,
+    the operation is a reclaiming `deallocate` / `shrink` / `shrink_slice`, the end of a scope (`scopeExit`,
+    `scopedAlignedExit`, `reset_to`), a reset (`reset`, `reset_to_start`) or `drop` -/
+theorem allocated_decreases_only_by (hc : CfgOK cfg) {g g' : GState} (h : Reachable cfg g) {op : Op}
     {resps : List BaseResp} {out : Out} {reqs : List BaseReq} (hcov : op.Covered) (henv : EnvOK cfg g resps)
     (hs : step cfg g op resps = .ok (g', out, reqs))
-    (hdec : (stats cfg g'.s).allocated < (stats cfg g.s).allocated) :
-    op.mayReclaim = true ∨ op.isTryWith = true := by
+    (hdec : (stats cfg g'.s).allocated < (stats cfg g.s).allocated) : op.mayReclaim = true := by
   cases h1 : op.mayReclaim
-  · cases h2 : op.isTryWith
-    · have := never_decreases hc h hcov henv h1 h2 hs
-      omega
-    · exact Or.inr rfl
-  · exact Or.inl rfl
-
-/-- TARGET (not proved): the same without the `alloc_try_with` alternative.  In the model `alloc_try_with(_mut)` never
-    decreases the count either (`Ok`: the position ends past the value, which lies past the old position; `Err`:
-    the checkpoint taken before the allocation is restored, or nothing is undone).  Missing: for the `Ok` path
-    with shrinking, that the block the fast / slow path returned lies on the free side of the OLD position of the
-    chunk that is current at the end (the `RAt` bookkeeping of `Lemmas/HistOpsTry.lean`, plus monotonicity of the
-    current-chunk index across the closure's own allocation). -/
-def allocated_decreases_only_by_target : Prop :=
-  ∀ (cfg : Cfg) (g g' : GState) (op : Op) (resps : List BaseResp) (out : Out) (reqs : List BaseReq),
-    CfgOK cfg → Reachable cfg g → op.Covered → EnvOK cfg g resps → step cfg g op resps = .ok (g', out, reqs) →
-    (stats cfg g'.s).allocated < (stats cfg g.s).allocated → op.mayReclaim = true
+  · have := never_decreases hc h hcov henv h1 hs
+    omega
+  · rfl
 
 /-- OPT-OUT of deallocation, in every history: with `DEALLOCATES = false`, or through `WithoutDealloc`, a
     `deallocate` never changes any statistic (it is valid, and only the ghost block is forgotten) -/
@@ -740,7 +732,7 @@ theorem shrink_optout_reachable (hc : CfgOK cfg) {g g' : GState} (h : Reachable 
     (hs : step cfg g (.shrink b L via) resps = .ok (g', out, reqs)) :
     (stats cfg g.s).allocated ≤ (stats cfg g'.s).allocated := by
   rcases hopt with rfl | hsh
-  · exact never_decreases hc h (op := .shrink b L .withoutShrink) rfl henv rfl rfl hs
+  · exact never_decreases hc h (op := .shrink b L .withoutShrink) rfl henv rfl hs
   · exact adv_shrink_optout (g := install g resps) ((h.inv hc).install resps) henv.1 hsh (step_ok hs).1
 
 theorem shrinkSlice_optout_reachable {g g' : GState} {b n : Nat} {resps : List BaseResp} {out : Out}
@@ -756,7 +748,12 @@ example : ∃ g' out reqs, Reachable exCfg exG3 ∧ (Op.grow 1 { size := 80, ali
 
 example : ∃ g' out reqs, step exCfg exG3 (.deallocate 1 .withoutDealloc) [] = .ok (g', out, reqs) := ⟨_, _, _, rfl⟩
 
-/-- the hypothesis of `allocated_decreases_only_by_partial` is met by a plain `deallocate` of the newest block -/
+/-- `WithoutShrink::shrink` of the newest block (40 → 8 bytes) -/
+example : ∃ g' out reqs, EnvOK exCfg exG3 [] ∧
+    step exCfg exG3 (.shrink 1 { size := 8, align := 16 } .withoutShrink) [] = .ok (g', out, reqs) :=
+  ⟨_, _, _, envOK_nil _, rfl⟩
+
+/-- the hypothesis of `allocated_decreases_only_by` is met by a plain `deallocate` of the newest block -/
 example : ∃ g' out reqs, step exCfg exG3 (.deallocate 1 .plain) [] = .ok (g', out, reqs) ∧
     (stats exCfg g'.s).allocated < (stats exCfg exG3.s).allocated := ⟨_, _, _, rfl, by decide⟩
 
